@@ -10,7 +10,8 @@ EXPLANATION = (
     "takes a pair popped from the queue. (3) is_minimal and minimal_image use the same relation: both call fold(&p, 1, d) with base chamber "
     "constant 1 over the inclusive range 2..=size(). (4) range completeness: the index loops of fold and morphism are 0..=dim(), "
     "degrees_match ranges over 0..dim() and compares m(i, i+1, .) of its two chambers, automorphisms tries every base image 1..=size() with "
-    "morphism(self, self, d). NOT decided: minimality/uniqueness of the quotient, exactness of the automorphism list, isomorphism of minimal "
+    "morphism(self, self, d). (5) a base image that is not a chamber is rejected: morphism answers None for it only because other.m(k, k+1, e) is None there, "
+    "so the accessors' `None outside the ranges` rule of C02 (T4-none-outside-ranges) is evaluated here too. NOT decided: minimality/uniqueness of the quotient, exactness of the automorphism list, isomorphism of minimal "
     "images of covers (these need the semantics of the congruence).")
 TRUSTED = ["rustc MIR lowering", "queue discipline: every pushed pair is popped (VecDeque semantics)", "Partition correctness, see C20"]
 ASSUMPTIONS = ["connected input (as the property states)"]
